@@ -380,11 +380,12 @@ where
     A: RingBuf<Item = T> + Send,
 {
 }
-// The channel is thread-safe as long as a thread-safe mutex is used
+// The channel is thread-safe as long as a thread-safe mutex is used. Other
+// threads push into and pop from the buffer, therefore it must be `Send`.
 unsafe impl<MutexType: RawMutex + Sync, T: Send, A> Sync
     for GenericChannel<MutexType, T, A>
 where
-    A: RingBuf<Item = T>,
+    A: RingBuf<Item = T> + Send,
 {
 }
 
